@@ -736,6 +736,9 @@ func unsignedFix(v Value, t types.Type) Value {
 }
 
 func iteChain(idx *Term, el []Value) Value {
+	if len(el) > 8 {
+		return iteRuns(idx, el)
+	}
 	res := el[len(el)-1]
 	for i := len(el) - 2; i >= 0; i-- {
 		res = iteValue(Eq(idx, ConstI(int64(i), idx.S.W)), el[i], res)
